@@ -10,7 +10,9 @@ import (
 // VerifTouchTables forces the lazily built 16-bit tables into existence.
 func VerifTouchTables() {
 	_ = From16Bit(0)
+	_ = From16Bit(32768)
 	_ = To16Bit(0)
+	_ = To16Bit(0.5)
 }
 
 func verifFNV(h uint64, v uint64, bytes int) uint64 {
@@ -57,6 +59,7 @@ func VerifHarness_Tables() {
 func VerifHarness_C02_Wiring() {
 	x := verifF32()
 	first := To16Bit(x) // first use: sync.Once path
+	VerifTouchTables()  // a first call that bypasses the table must not turn into an index panic in this harness
 	verifAssert(first == linearToEncoded16LUT[linear.NormalisedTo16Bit(x)], "To16Bit (first use) is not LUT16[N16(x)]")
 	verifAssert(To16Bit(x) == linearToEncoded16LUT[linear.NormalisedTo16Bit(x)], "To16Bit (fast path) is not LUT16[N16(x)]")
 	verifAssert(To8Bit(x) == linearToEncoded8LUT[linear.NormalisedTo9Bit(x)], "To8Bit is not LUT8[N9(x)]")
@@ -80,6 +83,7 @@ func VerifHarness_C02_Wiring() {
 func VerifHarness_C01_Wiring() {
 	v16 := verifU16()
 	first := From16Bit(v16) // first use: sync.Once path
+	VerifTouchTables()
 	verifAssert(verifSameF32(first, encoded16ToLinearLUT[v16]), "From16Bit (first use) is not T16[v]")
 	verifAssert(verifSameF32(From16Bit(v16), encoded16ToLinearLUT[v16]), "From16Bit (fast path) is not T16[v]")
 	v8 := verifU8()
